@@ -30,6 +30,7 @@ type caseT struct {
 	Markers    []string `json:"markers"`              // every identifier / literal lexeme that must not survive
 	KwNames    [][]kwT  `json:"keyword_names"`        // per statement: non-reserved keywords used as names
 	Concurrent bool     `json:"concurrent,omitempty"` // 16 goroutines share the Mapping (predicate only)
+	Cold       int      `json:"cold_rounds,omitempty"` // >0: barrier-started goroutines on a fresh Mapping, this many rounds
 }
 
 // ---------- oracle: what vitess says about a text ----------
@@ -166,6 +167,76 @@ func hasWord(text, w string) bool {
 	return false
 }
 
+// hasWordExact: the word occurs in text with exactly this spelling
+func hasWordExact(text, w string) bool {
+	for _, f := range strings.FieldsFunc(text, func(r rune) bool {
+		return !(r == '_' || r >= 'a' && r <= 'z' || r >= 'A' && r <= 'Z' || r >= '0' && r <= '9')
+	}) {
+		if f == w {
+			return true
+		}
+	}
+	return false
+}
+
+// lexTemplate splits a template into words, holes ("_" for an identifier hole, "?" for a literal hole) and punctuation.
+func lexTemplate(t string) []string {
+	var r []string
+	for i := 0; i < len(t); {
+		ch := t[i]
+		switch {
+		case ch == ' ':
+			i++
+		case ch == '{' && i+2 < len(t) && t[i+2] == '}':
+			if t[i+1] == 'i' {
+				r = append(r, "_")
+			} else {
+				r = append(r, "?")
+			}
+			i += 3
+		case ch == '_' || ch >= 'a' && ch <= 'z' || ch >= 'A' && ch <= 'Z' || ch >= '0' && ch <= '9':
+			j := i
+			for j < len(t) && (t[j] == '_' || t[j] >= 'a' && t[j] <= 'z' || t[j] >= 'A' && t[j] <= 'Z' || t[j] >= '0' && t[j] <= '9') {
+				j++
+			}
+			r = append(r, strings.ToUpper(t[i:j]))
+			i = j
+		default:
+			r = append(r, string(ch))
+			i++
+		}
+	}
+	return r
+}
+
+// posClass names the syntactic position of the hole-th identifier hole of a template: the statement kind (leading
+// keywords) and the two lexical items to the left of the hole.  It is the root-cause key of a keyword-name leak:
+// which AST position the identifier walk of the redactor does not reach.
+func posClass(t string, hole int) string {
+	idx, from := -1, 0
+	for k := 0; k < hole; k++ {
+		j := strings.Index(t[from:], "{i}")
+		if j < 0 {
+			return "unknown-position"
+		}
+		idx = from + j
+		from = idx + 3
+	}
+	all := lexTemplate(t)
+	kind := []string{}
+	for _, w := range all {
+		if len(kind) == 2 || !(w[0] >= 'A' && w[0] <= 'Z') {
+			break
+		}
+		kind = append(kind, w)
+	}
+	left := lexTemplate(t[:idx])
+	if len(left) > 2 {
+		left = left[len(left)-2:]
+	}
+	return strings.Join(kind, " ") + " | " + strings.Join(left, " ") + " _"
+}
+
 func checkOutput(c *lib.Ctx, id int, cs caseT, si int, out string, err error, parseOK bool, fresh bool, m *sqlredact.Mapping) {
 	sql := cs.Stmts[si]
 	if !parseOK {
@@ -190,8 +261,9 @@ func checkOutput(c *lib.Ctx, id int, cs caseT, si int, out string, err error, pa
 		if hasWord(cs.Templates[si], kw.Name) {
 			continue // the statement also uses the word as a keyword: its survival proves nothing
 		}
-		if hasWord(out, kw.Name) {
-			sig := "keyword-named-identifier-survives/" + cs.Templates[si]
+		if hasWordExact(out, kw.Name) {
+			// the spelling survives: it is in no walked position (else the identifier set would hold it), so this hole leaks
+			sig := "keyword-named-identifier-survives/" + posClass(cs.Templates[si], kw.Hole)
 			kwSigCount[sig]++
 			if kwSigCount[sig] > 2 { // the list of recorded failures is capped: keep room for other signatures
 				c.Count("predicate_failure_not_recorded_again:" + sig)
@@ -222,6 +294,10 @@ func markerKind(mk string) string {
 }
 
 func run(c *lib.Ctx, cs caseT) {
+	if cs.Cold > 0 {
+		runCold(c, cs)
+		return
+	}
 	if cs.Concurrent {
 		runConcurrent(c, cs)
 		return
@@ -342,6 +418,106 @@ func runConcurrent(c *lib.Ctx, cs caseT) {
 	}
 }
 
+// runCold: G goroutines released by a barrier redact the same statements into a COLD (fresh) Mapping, so that the
+// first minting of every lexeme races; repeated for many rounds.  The same lexeme must never come out as two
+// different placeholders (within or between outputs) and the counters must not skip or repeat.
+func runCold(c *lib.Ctx, cs caseT) {
+	const G = 8
+	rounds := cs.Cold
+	c.Count("concurrent_cold_start_barrier")
+	id := c.CaseNoModel(cs, "cold|"+strings.Join(cs.Stmts, ";"))
+	c.PredChecked()
+	// sequential reference: how many distinct lexemes there are
+	ref := sqlredact.NewMapping()
+	for _, sql := range cs.Stmts {
+		_, _ = sqlredact.RedactSQLForTraceInto(sql, ref)
+	}
+	wantI, wantV := len(ref.Idents()), len(ref.Values())
+	lex := []string{} // distinct lexemes for the direct API rounds
+	for _, mk := range cs.Markers {
+		dup := false
+		for _, l := range lex {
+			dup = dup || l == mk
+		}
+		if !dup {
+			lex = append(lex, mk)
+		}
+	}
+	if len(lex) == 0 {
+		lex = []string{"zqi0a"}
+	}
+	failed := map[string]bool{}
+	fail := func(sig, what string) {
+		if !failed[sig] {
+			failed[sig] = true
+			c.PredFail(id, sig, what, cs)
+		}
+	}
+	for round := 0; round < rounds; round++ {
+		m := sqlredact.NewMapping()
+		outs := make([][]string, G)
+		start := make(chan struct{})
+		var wg sync.WaitGroup
+		for g := 0; g < G; g++ {
+			wg.Add(1)
+			go func(g int) {
+				defer wg.Done()
+				outs[g] = make([]string, len(cs.Stmts))
+				<-start
+				if round%2 == 0 { // whole statements
+					for k := range cs.Stmts {
+						i := (k + g) % len(cs.Stmts)
+						outs[g][i], _ = sqlredact.RedactSQLForTraceInto(cs.Stmts[i], m)
+					}
+				} else { // the Mapping API directly, every goroutine the same lexemes
+					for k := range lex {
+						mk := lex[(k+g)%len(lex)]
+						a, b := m.RedactIdent(mk), m.RedactValue(mk)
+						if a2 := m.RedactIdent(mk); a2 != a {
+							outs[g][0] += "!ident " + mk + " " + a + " " + a2
+						}
+						if b2 := m.RedactValue(mk); b2 != b {
+							outs[g][0] += "!value " + mk + " " + b + " " + b2
+						}
+					}
+				}
+			}(g)
+		}
+		close(start)
+		wg.Wait()
+		if round%2 == 0 {
+			for i, sql := range cs.Stmts {
+				for g := 1; g < G; g++ {
+					if outs[g][i] != outs[0][i] {
+						fail("concurrent-cold-mint/same-statement-two-redactions", fmt.Sprintf("round %d: %q redacted concurrently into one fresh Mapping gives %q and %q", round, sql, outs[0][i], outs[g][i]))
+					}
+				}
+				if again, _ := sqlredact.RedactSQLForTraceInto(sql, m); again != outs[0][i] {
+					fail("concurrent-cold-mint/placeholder-changes-afterwards", fmt.Sprintf("round %d: %q: concurrently %q, afterwards %q", round, sql, outs[0][i], again))
+				}
+			}
+			if len(m.Idents()) != wantI || len(m.Values()) != wantV {
+				fail("concurrent-cold-mint/wrong-number-of-entries", fmt.Sprintf("round %d: %d identifiers / %d values in the Mapping, %d / %d distinct lexemes", round, len(m.Idents()), len(m.Values()), wantI, wantV))
+			}
+		} else {
+			for g := 0; g < G; g++ {
+				if outs[g][0] != "" {
+					fail("concurrent-cold-mint/same-lexeme-two-placeholders", fmt.Sprintf("round %d: %s", round, outs[g][0]))
+				}
+			}
+			if len(m.Idents()) != len(lex) || len(m.Values()) != len(lex) {
+				fail("concurrent-cold-mint/wrong-number-of-entries", fmt.Sprintf("round %d: %d identifiers / %d values for %d lexemes", round, len(m.Idents()), len(m.Values()), len(lex)))
+			}
+		}
+		if ok, why := injective(m.Idents(), "n"); !ok {
+			fail("concurrent-cold-mint/identifier-counter-skips-or-repeats", fmt.Sprintf("round %d: %s", round, why))
+		}
+		if ok, why := injective(m.Values(), "v"); !ok {
+			fail("concurrent-cold-mint/value-counter-skips-or-repeats", fmt.Sprintf("round %d: %s", round, why))
+		}
+	}
+}
+
 // ---------- generator ----------
 var templates = []string{
 	"SELECT {i}, {i} FROM {i} WHERE {i} = {s} AND {i} > {n}",
@@ -417,6 +593,20 @@ var templates = []string{
 	"SELECT {i} FROM {i} UNION SELECT {s} FROM DUAL",
 	"EXPLAIN SELECT {i} FROM {i}",
 	"SELECT {f} * {n} - -{n} / +{f} DIV {n} MOD {n} | {n} & {n} ^ ~{n}",
+	"SELECT {n} IN ({n}, {i}) FROM {i}",
+	"SELECT {i} FROM {i} WHERE {n} IN ({n}, {i}, {s})",
+	"SELECT {i} FROM {i} WHERE ({n}, {i}) = ({n}, {n})",
+	"SELECT {i} FROM {i} WHERE ({s}, {n}, {i}) IN (({s}, {n}, {i}), ({n}, {i}, {i}))",
+	"INSERT INTO {i} VALUES ({n}, {i})",
+	"INSERT INTO {i} ({i}) VALUES ({s}, {i}), ({n}, {i})",
+	"INSERT INTO {i} VALUES ({n}, {i}) ON DUPLICATE KEY UPDATE {i} = {i}",
+	"REPLACE INTO {i} VALUES ({f}, {i}, {s})",
+	"SELECT * FROM (VALUES ROW({n}, {i}), ROW({s}, {i})) AS {i}",
+	"SELECT ({n}, {i}), ({i}, {n}) FROM {i}",
+	"SELECT {i}({n}, {i}), COALESCE({s}, {i}), IF({n}, {i}, {i}) FROM {i}",
+	"SELECT {i} FROM {i} WHERE {i} NOT IN ({n}, {i}) OR {n} BETWEEN {n} AND {i}",
+	"UPDATE {i} SET {i} = ({n}, {i}) WHERE {n} = {i}",
+	"SELECT {n} + {i}, {s} = {i}, -{i}, NOT {i}, {n} < {i} FROM {i}",
 	"BEGIN",
 	"SELEC {i} FRM {i} WHERE {s}",
 	"SELECT {i} FROM WHERE {i} = 'zqsunterminated",
@@ -585,6 +775,9 @@ func gen(r *lib.RNG) caseT {
 	if r.Chance(1, 30) {
 		cs.Concurrent = true
 		n = 16
+	} else if r.Chance(1, 40) {
+		cs.Cold = 60
+		n = r.Range(1, 3)
 	}
 	for i := 0; i < n; i++ {
 		t := templates[r.Intn(len(templates))]
@@ -609,7 +802,7 @@ func gen(r *lib.RNG) caseT {
 }
 
 // sweep: every template x every identifier hole x every keyword of the pool, all other holes plain markers.
-// Deterministic; only the first failing statement of every template is recorded as a case.
+// Deterministic; the first failing statement of every leaking position class is recorded as a case.
 func sweep(c *lib.Ctx) {
 	seen := map[string]bool{}
 	for _, t := range templates {
@@ -629,12 +822,17 @@ func sweep(c *lib.Ctx) {
 					continue
 				}
 				cs := caseT{Stmts: []string{sql}, Templates: []string{t}, Markers: g.markers, KwNames: [][]kwT{{{kw, h}}}}
-				bad := hasWord(out, kw)
-				for _, mk := range g.markers {
-					bad = bad || containsFold(out, mk)
+				bad, key := false, ""
+				if hasWordExact(out, kw) {
+					bad, key = true, posClass(t, h)
 				}
-				if bad && !seen[t] {
-					seen[t] = true
+				for _, mk := range g.markers {
+					if containsFold(out, mk) {
+						bad, key = true, "marker|"+t
+					}
+				}
+				if bad && !seen[key] {
+					seen[key] = true
 					run(c, cs) // records the case (with the model's view of it) and the predicate failure
 				}
 			}
@@ -652,7 +850,7 @@ func main() {
 			"position holds a unique marker (plain, upper case, back-quoted, with space / multi-byte, digit-initial) or one of %d non-reserved "+
 			"keywords, every literal position a unique string / number / float / hex / bit literal, plus comments, user and system variables, "+
 			"bind arguments; 1/5 of the identifiers repeat an earlier lexeme; 1/30 of the cases run 16 goroutines on a shared Mapping "+
-			"(predicate only). Non-trivial = at least one statement parses.", len(templates), len(kwPool)))
+			"(predicate only); cold-start phase: 8 barrier-started goroutines first-mint the same lexemes in a fresh Mapping, 3 x 300 fixed rounds + 1/40 of the cases x 60 rounds. Non-trivial = at least one statement parses.", len(templates), len(kwPool)))
 		if c.ReplayFile != "" {
 			var cs caseT
 			lib.LoadReplay(c.ReplayFile, &cs)
@@ -677,6 +875,16 @@ func main() {
 			run(c, cs)
 		}
 		sweep(c)
+		for _, cs := range []caseT{
+			{Cold: 300, Stmts: []string{"SELECT zqi1a FROM zqi2a WHERE zqi1a = 'zqs3z'"}, Templates: []string{"cold"}, Markers: []string{"zqi1a", "zqi2a", "zqs3z"}, KwNames: [][]kwT{{}}},
+			{Cold: 300, Stmts: []string{"SELECT zqi1a, zqi2a, zqi3a, zqi4a FROM zqi5a WHERE zqi6a IN (7710017, 7710027, 'zqs7z', 'zqs8z')",
+				"UPDATE zqi5a SET zqi1a = 7710017, zqi9a = 'zqs7z' WHERE zqi2a = 7710027"}, Templates: []string{"cold", "cold"},
+				Markers: []string{"zqi1a", "zqi2a", "zqi3a", "zqi4a", "zqi5a", "zqi6a", "zqi9a", "7710017", "7710027", "zqs7z", "zqs8z"}, KwNames: [][]kwT{{}, {}}},
+			{Cold: 300, Stmts: []string{"SELECT zqi1a", "SELECT zqi1a", "SELECT 'zqi1a'", "SELECT zqi1a FROM zqi1a WHERE zqi1a = 'zqi1a'"},
+				Templates: []string{"cold", "cold", "cold", "cold"}, Markers: []string{"zqi1a"}, KwNames: [][]kwT{{}, {}, {}, {}}},
+		} {
+			run(c, cs)
+		}
 		for i := len(corpus); i < c.N; i++ {
 			run(c, gen(c.R.Fork()))
 		}
